@@ -1,7 +1,7 @@
 (* Dispatcher for the filesystem-level models. *)
 From Coq Require Import List NArith ZArith Bool Arith String.
 From PyFS Require Import Base.PyStr Base.Outcome Base.Render FS.Tree FS.Monad FS.Mode FS.Base
-     FS.Mem FS.Ops FS.Ref FS.Agree FS.Props FS.Wrap Path.PathSpec.
+     FS.Mem FS.Ops FS.Ref FS.Agree FS.Props FS.Wrap FS.ReadOnly Path.PathSpec.
 Import ListNotations.
 Local Open Scope string_scope. Local Open Scope list_scope.
 
@@ -81,6 +81,16 @@ Definition run_fs2 (name : str) (args : list str) : str :=
     sep_by (lit " ") (preserved_history empty_dir ops)
   else if str_eqb name (lit "preserved") then
     with_obs args (fun b a ok o => r_bool (preserved b a o ok))
+  else if str_eqb name (lit "ro") then
+    (* <k> <calls>: the first k calls on the MemoryFS model, the rest through the read-only wrapper model *)
+    match args with
+    | k :: rest =>
+      let ops := decode_ops (S (List.length rest)) rest in
+      let n := match k with c :: _ => N.to_nat c | [] => O end in
+      let s := fst (run_ops mem_run empty_dir (firstn n ops)) in
+      sep_by (lit " ") (run_history ro_mem_run s (skipn n ops))
+    | [] => lit "?k"
+    end
   else if str_eqb name (lit "refstep") then
     (* reference step from a supplied tree: <tree> <call> *)
     match decode_tree (S (List.length args)) args with
